@@ -1,11 +1,11 @@
 (* C14 - Table.equals is true exactly for the same header and the same cells.
    Only statements here; every proof is one [exact] of a lemma from Proofs/. *)
-From PdV Require Import Equals EqualsProofs.
+From PdV Require Import Equals EqualsProofs PyEq PyEqProofs EqualsCells.
 
 (* For all pairs of tables (default row numbering; every row holds one cell per column) and every
    cell comparison [eqv]: equals holds iff name, destination set, column names in order, units and
-   number of rows agree and the cells are pairwise [eqv].  Origin and orientation do not occur in
-   the function at all. *)
+   number of rows agree and the cells are pairwise [eqv].  (For the concrete cell comparison and
+   for origin, orientation and operands that are not tables see the second half of this file.) *)
 Theorem C14_equals_iff :
   forall (V : Type) (eqv : V -> V -> bool) (a b : table V),
     wf a -> wf b ->
@@ -42,3 +42,95 @@ Example C14_example :
   wf (t [[1; 2]; [3; 4]]) /\ equals Nat.eqb (t [[1; 2]; [3; 4]]) (t [[1; 2]; [3; 4]]) = true /\
   equals Nat.eqb (t [[1; 2]; [3; 4]]) (t [[1; 2]]) = false.
 Proof. split; [repeat constructor|split; vm_compute; reflexivity]. Qed.
+
+(* ---- the cell comparison itself: pdtable.proxy._equal_or_same on python scalars ---- *)
+
+(* with it, equals is reflexive and symmetric without further hypotheses *)
+Theorem C14_cells_refl : forall a : table pyval, equals equal_or_same a a = true.
+Proof. exact cells_refl. Qed.
+Print Assumptions C14_cells_refl.
+
+Theorem C14_cells_sym : forall a b : table pyval, equals equal_or_same a b = equals equal_or_same b a.
+Proof. exact cells_sym. Qed.
+Print Assumptions C14_cells_sym.
+
+(* numbers compare by value regardless of numeric type: an int z is z * 2^0, a bool is 0 or 1, a
+   finite float is mantissa * 2^exponent; two numbers are equal cells exactly when these values are
+   equal (stated over the integers at any common scale 2^k) *)
+Theorem C14_numbers_by_value :
+  forall a b m1 e1 m2 e2 k,
+    num_of a = Some (NFin m1 e1) -> num_of b = Some (NFin m2 e2) -> (k <= e1)%Z -> (k <= e2)%Z ->
+    (equal_or_same a b = true <-> (m1 * 2 ^ (e1 - k) = m2 * 2 ^ (e2 - k))%Z).
+Proof. exact eos_numbers. Qed.
+Print Assumptions C14_numbers_by_value.
+
+(* missing equals missing (None, NaN, NaT, pd.NA alike) and nothing else *)
+Theorem C14_missing :
+  forall a b, is_missing a = true -> equal_or_same a b = is_missing b.
+Proof. exact eos_missing. Qed.
+Print Assumptions C14_missing.
+
+(* the cell comparison is an equivalence relation *)
+Theorem C14_cell_equivalence :
+  (forall a, equal_or_same a a = true) /\
+  (forall a b, equal_or_same a b = equal_or_same b a) /\
+  (forall a b c, equal_or_same a b = true -> equal_or_same b c = true -> equal_or_same a c = true).
+Proof. exact (conj eos_refl (conj eos_sym eos_trans)). Qed.
+Print Assumptions C14_cell_equivalence.
+
+(* origin and orientation are ignored; comparison with anything that is not a Table is false *)
+Theorem C14_origin_orientation_ignored :
+  forall (c1 c2 o1 o2 o1' o2' : N) (t1 t2 t1' t2' : bool) (a b : table pyval),
+    method_equals equal_or_same (OTable c1 o1 t1 a) (OTable c2 o2 t2 b)
+    = method_equals equal_or_same (OTable c1 o1' t1' a) (OTable c2 o2' t2' b).
+Proof. exact method_ignores_origin_orientation. Qed.
+Print Assumptions C14_origin_orientation_ignored.
+
+Theorem C14_not_a_table :
+  forall (self : pyobj pyval) (tag : N), method_equals equal_or_same self (ONotTable tag) = false.
+Proof. exact method_not_table. Qed.
+Print Assumptions C14_not_a_table.
+
+(* on objects the method is reflexive and symmetric, whatever the classes of the two tables *)
+Theorem C14_method_refl :
+  forall (c o : N) (t : bool) (a : table pyval), method_equals equal_or_same (OTable c o t a) (OTable c o t a) = true.
+Proof. exact method_refl. Qed.
+Print Assumptions C14_method_refl.
+
+Theorem C14_method_sym :
+  forall x y : pyobj pyval, method_equals equal_or_same x y = method_equals equal_or_same y x.
+Proof. exact method_sym. Qed.
+Print Assumptions C14_method_sym.
+
+(* before the third repair (isinstance(other, self.__class__)) a Table and a subclass instance with
+   the same content were equal in one direction only *)
+Theorem C14_subclass_unrepaired_refuted :
+  exists x y : pyobj pyval,
+    method_equals_unrepaired equal_or_same x y = true /\ method_equals_unrepaired equal_or_same y x = false /\
+    method_equals equal_or_same x y = true /\ method_equals equal_or_same y x = true.
+Proof. exact method_unrepaired_asymmetric. Qed.
+Print Assumptions C14_subclass_unrepaired_refuted.
+
+(* the cell comparison as it stood before the second repair (fix: commit in /repo): a pd.NA cell made
+   a == b raise inside Table.equals, so a table holding pd.NA did not even equal itself; wherever the
+   old code answered, the repaired code answers the same *)
+Theorem C14_pdNA_unrepaired_refuted :
+  equal_or_same_unrepaired PNA PNA = None /\ equal_or_same PNA PNA = true.
+Proof. exact unrepaired_pdNA. Qed.
+Print Assumptions C14_pdNA_unrepaired_refuted.
+
+Theorem C14_repair_conservative :
+  forall a b r, equal_or_same_unrepaired a b = Some r -> equal_or_same a b = r.
+Proof. exact repair_conservative. Qed.
+Print Assumptions C14_repair_conservative.
+
+(* non-vacuity: 10 == 10.0 == True + 9, 2^53 + 1 differs from the float 2^53, NaN equals None *)
+Example C14_cells_example :
+  equal_or_same (PInt 10) (PFloat 4621819117588971520) = true /\
+  equal_or_same (PBool true) (PFloat 4607182418800017408) = true /\
+  equal_or_same (PInt (2 ^ 53 + 1)) (PFloat 4845873199050653696) = false /\
+  equal_or_same (PInt (2 ^ 53)) (PFloat 4845873199050653696) = true /\
+  equal_or_same (PFloat 9221120237041090560) PNone = true /\
+  equal_or_same (PFloat 9223372036854775808) (PInt 0) = true /\
+  num_of (PFloat 4621819117588971520) = Some (NFin 5629499534213120 (-49)).
+Proof. repeat split; vm_compute; reflexivity. Qed.
